@@ -254,6 +254,54 @@ func (sessScenario) Gen(r *Rng, tier string, opts map[string]string) interface{}
 		p.Sim.PointMean = 0
 		return p
 	}
+	if prop == "C08" && r.Chance(1, 4) {
+		// reads and peeks that end exactly at slice ends, then consumption that makes the library let go of the
+		// slices behind them, with a scribbler reusing whatever is freed - nothing is released until the end
+		p.Cfg.Slices = [][2]uint32{{uint32(r.Pick(64, 256, 1024)), 100}}
+		c := int(p.Cfg.Slices[0][0])
+		k := 3 + r.Intn(3)
+		total := k*c + r.Intn(c)
+		var sp streamPlan
+		sp.C2S.W = []wOp{{K: "msg", Pieces: []piece{{K: "wb", N: total}}}}
+		left := total
+		add := func(kind string, n int) {
+			if n < 1 {
+				n = 1
+			}
+			if kind != "peek" {
+				if n > left {
+					n = left
+				}
+				left -= n
+			}
+			if n > 0 {
+				sp.C2S.R = append(sp.C2S.R, rOp{K: kind, N: n})
+			}
+		}
+		for left > c {
+			switch r.Intn(6) {
+			case 0:
+				add("rb", c)
+			case 1:
+				add("rb", c-r.Intn(3))
+			case 2:
+				add("peek", 1+r.Intn(c))
+			case 3:
+				add("discard", c-r.Intn(2))
+			case 4:
+				add("rb", 1+r.Intn(2*c))
+			default:
+				add("rbyte", 1)
+			}
+			if r.Chance(1, 3) {
+				sp.C2S.R = append(sp.C2S.R, rOp{K: "sleep", N: r.Pick(1, 20)})
+			}
+		}
+		sp.C2S.R = append(sp.C2S.R, rOp{K: "sleep", N: 50}, rOp{K: "release"})
+		p.Streams = []streamPlan{sp}
+		p.Neighbor = []nbOp{{K: "sleep", N: 1}, {K: "scribble", N: 3, Side: 1}, {K: "sleep", N: 5}, {K: "scribble", N: 3, Side: 1}, {K: "sleep", N: 20}, {K: "scribble", N: 3, Side: 1}}
+		return p
+	}
 	burst := prop == "C05" && r.Chance(1, 20)
 	if burst {
 		// thousands of queue elements produced while the consumer is off the CPU, drained in one go
@@ -1889,6 +1937,27 @@ func (w *sessWorld) neighbor(ops []nbOp) {
 			w.releaseHogs()
 		case "scribble":
 			bm := w.bmOf(op.Side)
+			// every buffer that is free right now gets its payload overwritten in place (the free lists are FIFO, so
+			// popping a few buffers would never reach a slice that was recycled a moment ago): whoever still looks at
+			// a prematurely recycled slice sees 0xA5
+			for _, l := range bm.lists {
+				slot := *l.capPerBuffer + bufferHeaderSize
+				off := *l.head
+				for n := int32(0); n < *l.size+1 && off%slot == 0 && off/slot < *l.cap; n++ {
+					hdr := bufferHeader(l.bufferRegion[off : off+bufferHeaderSize])
+					if hdr.isInUsed() {
+						break
+					}
+					pl := l.bufferRegion[off+bufferHeaderSize : off+slot]
+					for j := range pl {
+						pl[j] = 0xA5
+					}
+					if !hdr.hasNext() {
+						break
+					}
+					off = hdr.nextBufferOffset()
+				}
+			}
 			for i := 0; i < op.N; i++ {
 				var got []*bufferSlice
 				for _, l := range bm.lists {
